@@ -30,15 +30,16 @@ UNITS = {
     "wmode": [(), ("async",)],
     "symlink": [()],
     "ffilter": [()],
+    "hindex": [()],
 }
 
 # property -> list of (unit, features)
 PROP_UNITS = {
-    "C01": [("state", ()), ("handle", ()), ("swrite", ()), ("collide", ()), ("ffilter", ())],
+    "C01": [("state", ()), ("handle", ()), ("swrite", ()), ("collide", ()), ("ffilter", ()), ("hindex", ())],
     "C02": [("spec", TF), ("logger", TF), ("handle_c", TF), ("handle_d", TF), ("lbuild", ()), ("specbuilder", TF)],
     "C04": [("state", ()), ("handle", ()), ("flw", ()), ("primary", ()), ("dispatch", ("async",)), ("stdw", ("async",)), ("lh", TF), ("lbuild", ()), ("handle_async", ("async",)), ("logger", TF), ("wmode", ()), ("wmode", ("async",)), ("multi", ())],
     "C05": [("handle_a", TF), ("handle_b", TF), ("handle_b2", TF), ("handle_c", TF), ("spec", TF), ("lbuild", ())],
-    "C06": [("state", ()), ("timestamps", ()), ("builder", ()), ("collide", ()), ("latest", ()), ("ffilter", ())],
+    "C06": [("state", ()), ("timestamps", ()), ("builder", ()), ("collide", ()), ("latest", ()), ("ffilter", ()), ("hindex", ())],
     "C07": [("state", ()), ("listing", ()), ("cleanup", ()), ("collide", ()), ("builder", ()), ("builder", ("async",)), ("ffilter", ())],
     "C08": [("state", ())],
     "C09": [("state", ()), ("timestamps", ()), ("builder", ())],
